@@ -37,6 +37,8 @@ def run(tier):
         if H.header_index(prog, rep) < 4:      # "never reads or writes outside its own buffers": the parsed-header array
             rep.defer_broken("W9-index: fewer than 4 subscripts of the parsed-header array found")
         H.chunk_framing(prog, rep)     # "never aborts": a consume of more than the line and its CRLF trips the reader's assertion
+        if H.window_reads(prog, rep) < 2:
+            rep.defer_broken("W11-inwindow: fewer than 2 reads of the window found in http.c")
         H.terminator_found(prog, rep)  # "never aborts": the parser is run only on a block whose blank line was seen
         H.header_count(prog, rep)      # "never aborts": lines are counted by the tokenizer that extracts them
         if H.announced_sizes(prog, rep) < 3:   # "ends with exactly one invocation of the callback": whatever length the server announces
